@@ -372,7 +372,7 @@ fn pick_dist(mix: &mut Mix, pos: usize) -> u32 {
 }
 
 /// token mode: tokens first, plaintext derived
-fn gen_tokens_token_mode(dna: &mut Dna, feat: &mut SynFeatures) -> (Vec<Tok>, Vec<u8>) {
+fn gen_tokens_token_mode(dna: &mut Dna, feat: &mut SynFeatures, max_plain: usize) -> (Vec<Tok>, Vec<u8>) {
     let nruns = dna.range(1, 6);
     let mut toks = Vec::new();
     let mut plain: Vec<u8> = Vec::new();
@@ -416,7 +416,7 @@ fn gen_tokens_token_mode(dna: &mut Dna, feat: &mut SynFeatures) -> (Vec<Tok>, Ve
                 plain.push(b);
                 toks.push(Tok::Lit(b));
             }
-            if plain.len() > 600_000 {
+            if plain.len() > max_plain {
                 break;
             }
         }
@@ -1034,7 +1034,8 @@ pub fn gen_syn(dna: &mut Dna, opts: &SynOpts) -> SynStream {
     let mut feat = SynFeatures::default();
     let (toks, plain) = if dna.chance(45) {
         // parse mode over a G-PLAIN text
-        let plain = crate::gen_plain::gen_plain(dna, &[25, 40, 28, 7]);
+        let mut plain = crate::gen_plain::gen_plain(dna, &[25, 40, 28, 7]);
+        plain.truncate(opts.max_plain);
         let ref_pct = [30u32, 70, 95, 100][dna.below(4)];
         let irr = [0u32, 0, 50, 100][dna.below(4)];
         let mut mix = Mix::new(dna.u64());
@@ -1042,7 +1043,7 @@ pub fn gen_syn(dna: &mut Dna, opts: &SynOpts) -> SynStream {
         feat.mode = "parse";
         (toks, plain)
     } else {
-        let (t, p) = gen_tokens_token_mode(dna, &mut feat);
+        let (t, p) = gen_tokens_token_mode(dna, &mut feat, opts.max_plain);
         (t, p)
     };
     encode_tokens(dna, &toks, &plain, opts, feat)
